@@ -137,6 +137,10 @@ func c02Scenarios(c *vlib.Ctx) []c02Scenario {
 			// the same with the task manager's own bookkeeping of the failure held up (delay point at the
 			// start of its goroutine): the task has lost its executor id but its role is still active
 			c02Scenario{Transition: "START_ACTIVITY", Hosts: 2, Tasks: []c02Task{{Name: "victim", Critical: true, Mode: "direct", Host: 1, Outcome: "exec-lost-racing"}, {Name: "bc", Critical: true, Mode: "direct", Host: 2, Outcome: "ok"}}},
+			// the task itself dies (TASK_FAILED) 80 ms before the request
+			c02Scenario{Transition: "START_ACTIVITY", Hosts: 2, Tasks: []c02Task{{Name: "victim", Critical: true, Mode: "fairmq", Host: 1, Outcome: "task-failed-before"}, {Name: "bc", Critical: true, Mode: "direct", Host: 2, Outcome: "ok"}}},
+			c02Scenario{Transition: "STOP_ACTIVITY", Hosts: 2, Tasks: []c02Task{{Name: "victim", Critical: true, Mode: "direct", Host: 1, Outcome: "task-failed-before"}, {Name: "bn", Critical: false, Mode: "basic", Host: 2, Outcome: "ok"}}},
+			c02Scenario{Transition: "RESET", Hosts: 2, Tasks: []c02Task{{Name: "victim", Critical: true, Mode: "direct", Host: 1, Outcome: "task-failed-before"}, {Name: "bc", Critical: true, Mode: "fairmq", Host: 2, Outcome: "ok"}}},
 		)
 	} else {
 		for _, tr := range []string{"START_ACTIVITY", "STOP_ACTIVITY", "RESET"} {
@@ -146,6 +150,9 @@ func c02Scenarios(c *vlib.Ctx) []c02Scenario {
 					oc := "exec-lost-before"
 					if shape == 3 {
 						oc = "exec-lost-racing"
+					}
+					if shape == 2 {
+						oc = "task-failed-before"
 					}
 					sc.Tasks = append(sc.Tasks, c02Task{Name: "victim", Critical: vcrit, Mode: c02Modes[shape%3], Host: 1, Outcome: oc})
 					if shape == 1 || shape == 3 {
@@ -187,7 +194,7 @@ func c02Scenarios(c *vlib.Ctx) []c02Scenario {
 func (sc c02Scenario) long() bool {
 	for _, t := range sc.Tasks {
 		switch t.Outcome {
-		case "silent", "die", "undeliverable", "exec-lost-before", "exec-lost-racing":
+		case "silent", "die", "undeliverable", "exec-lost-before", "exec-lost-racing", "task-failed-before":
 			return true
 		}
 	}
@@ -382,7 +389,7 @@ func c02Run(c *vlib.Ctx, idx int, sc c02Scenario) {
 
 	long := false
 	for _, t := range sc.Tasks {
-		if t.Outcome == "silent" || t.Outcome == "die" || t.Outcome == "undeliverable" || t.Outcome == "exec-lost-before" || t.Outcome == "exec-lost-racing" {
+		if t.Outcome == "silent" || t.Outcome == "die" || t.Outcome == "undeliverable" || t.Outcome == "exec-lost-before" || t.Outcome == "exec-lost-racing" || t.Outcome == "task-failed-before" {
 			long = true
 		}
 	}
@@ -566,9 +573,14 @@ func c02Run(c *vlib.Ctx, idx int, sc c02Scenario) {
 				s.Master.ExecutorFailure(lt.AgentID, lt.ExecutorID, false)
 				c.Count("executors_lost_before_request", 1)
 			}
+			if tt, ok := roleOf(&lt); ok && tt.Outcome == "task-failed-before" {
+				s.Master.Note("TASK-FAILED", map[string]interface{}{"task": lt.RolePath})
+				s.Master.TaskStatus(lt.ID, "TASK_FAILED", "process died (scripted)")
+				c.Count("tasks_failed_before_request", 1)
+			}
 		}
 		for _, t := range sc.Tasks {
-			if t.Outcome == "exec-lost-before" || t.Outcome == "exec-lost-racing" {
+			if t.Outcome == "exec-lost-before" || t.Outcome == "exec-lost-racing" || t.Outcome == "task-failed-before" {
 				time.Sleep(80 * time.Millisecond) // inside the environment watcher's 500 ms grace period
 				break
 			}
